@@ -46,8 +46,9 @@ type fdent struct {
 }
 
 type Model struct {
-	root *inode
-	fds  map[int32]*fdent
+	root   *inode
+	fds    map[int32]*fdent
+	lastFd int32 // number returned by the most recent successful path_open
 }
 
 // initial tree: a = "abcdef", d/ , d/x = "XY"; b does not exist. fd 3 = the pre-opened mount.
@@ -185,6 +186,7 @@ func (m *Model) apply(o *Op) Exp {
 			}
 		}
 		fd := m.lowestFree()
+		m.lastFd = fd
 		m.fds[fd] = &fdent{ino: n, name: joinName(b, o.P), app: md.app, wr: md.write}
 		return okN(uint64(fd))
 
